@@ -143,7 +143,32 @@ func c14Key() (string, DataCategory) {
 	prefixes, cats = append(prefixes, "tunnox:runtime-only:"), append(cats, DataCategoryRuntime)
 	i := verif_Choose(len(prefixes))
 	n := verif_IntRange(0, verif_Bound("suffix"))
-	return prefixes[i] + string(verif_Bytes(n)), cats[i]
+	key := prefixes[i] + string(verif_Bytes(n))
+	return key, c14Classify(cfg, key)
+}
+
+// c14Classify is the harness' own reading of the configuration tables (documented
+// priority: shared-persistent, shared, persistent, otherwise runtime). It does not use
+// the store's classifier, so a store that mis-classifies a key is caught.
+func c14Classify(cfg *Config, key string) DataCategory {
+	has := func(list []string) bool {
+		for _, p := range list {
+			if len(key) >= len(p) && verif_StrEq(key[:len(p)], p) {
+				return true
+			}
+		}
+		return false
+	}
+	if has(cfg.SharedPersistentPrefixes) {
+		return DataCategorySharedPersistent
+	}
+	if has(cfg.SharedPrefixes) {
+		return DataCategoryShared
+	}
+	if has(cfg.PersistentPrefixes) {
+		return DataCategoryPersistent
+	}
+	return DataCategoryRuntime
 }
 
 // Tier routing for every key: whatever one node writes through any write-class
@@ -154,7 +179,7 @@ func Harness_C14_routing() {
 	ctx := context.Background()
 	w := newC14World(ctx, false)
 	key, cat := c14Key()
-	verif_Assume(w.nodes[0].h.getCategory(key) == cat) // prefix tables overlap: keep the class the store assigns
+	verif_Assert("C14.route.category", w.nodes[0].h.getCategory(key) == cat)
 	a, b := w.nodes[0], w.nodes[1]
 	sharedClass := cat == DataCategoryShared || cat == DataCategorySharedPersistent
 	switch verif_Choose(5) {
@@ -236,7 +261,7 @@ func Harness_C14_stale_read() {
 	w := newC14World(ctx, false)
 	nd := w.nodes[0]
 	key, cat := c14Key()
-	verif_Assume(nd.h.getCategory(key) == cat)
+	verif_Assert("C14.stale.category", nd.h.getCategory(key) == cat)
 	verif_Assume(cat == DataCategoryPersistent || cat == DataCategorySharedPersistent)
 	cur := int64(0) // 0: absent, otherwise the latest value whose Set returned
 	next := int64(1)
